@@ -380,7 +380,8 @@ def genrun_check(drv, chk, g, rng):
         finally:
             TRACE.stop()
             w.close()
-        rep = drv.ask(f"GENRUN 0 {graph_sx(nodes)} ((" + " ".join(str(tid(r)) for r in roots) + ")) (seq 20000)")
+        root_ids = " ".join(str(tid(r)) for r in roots)   # may add composite nodes: before graph_sx
+        rep = drv.ask(f"GENRUN 0 {graph_sx(nodes)} (({root_ids})) (seq 20000)")
         m = re.match(r"\(ok \(\((\d)((?: \(\d+ \w+\))*)\)\) \((.*)\)\)$", rep)
         if not m:
             raise lean.InfraError("unexpected GENRUN reply: " + rep[:300])
@@ -414,10 +415,10 @@ def sequential_reference(g, calls):
         TRACE.stop()
 
 
-def concurrent_run(g, calls, policy, record_points=False):
+def concurrent_run(g, calls, policy, record_points=False, want=None):
     w = World(g)
     outs = [[] for _ in calls]
-    S = sched.Scheduler(policy, record_points=record_points)
+    S = sched.Scheduler(policy, want=want, record_points=record_points)
     try:
         TRACE.start()
         res = S.run([thread_fn(w, mine, outs[i]) for i, mine in enumerate(calls)])
@@ -465,9 +466,9 @@ def run(chk: framework.Check):
     rng = chk.rng
     drv = lean.Driver()
     quick = chk.tier == "quick"
-    n_graphs = 60 if quick else 150
-    n_sched = 30 if quick else 120
-    budget = 50.0 if quick else 480.0
+    n_graphs = 60 if quick else 100
+    n_sched = 16 if quick else 60
+    budget = 100.0 if quick else 540.0      # safety net on an overloaded machine only; normally never reached
     total_points = total_sched = total_switch = 0
     t_conc = 0.0
     corr_fail = []          # (what, case) without an oracle failure on that very run
@@ -502,12 +503,16 @@ def run(chk: framework.Check):
         if bad:
             corr_fail.append(("corr:C19:GENRUN " + bad, case_of(g, calls, sched.PreemptPolicy(range(nthreads), {}))))
         # ---- schedules
-        policies = [sched.RandomPolicy(rng.getrandbits(48), rng.choice((0.02, 0.08, 0.15, 0.3, 0.6))) for _ in range(n_sched)]
+        policies = [sched.RandomPolicy(rng.getrandbits(48), rng.choice((0.003, 0.01, 0.02, 0.05, 0.15, 0.4))) for _ in range(n_sched)]
         if not quick and gi % 5 == 0:
             policies += preemption_bounded(g, calls, nthreads, rng, chk)
+        # thorough: every 10th graph without the partial-order reduction (EVERY cattrs line is a scheduling point)
+        want = sched.full_want if (not quick and gi % 10 == 3) else None
+        if want is not None:
+            chk.note("graph-with-unreduced-scheduling-points")
         for pol in policies:
             tc = time.time()
-            outs, log, w, S = concurrent_run(g, calls, pol)
+            outs, log, w, S = concurrent_run(g, calls, pol, want=want)
             t_conc += time.time() - tc
             w.close()
             total_points += S.steps
@@ -633,7 +638,7 @@ def replay(case):
     print("sequential:", ref)
     print("concurrent:", outs)
     print("oracle:", "holds" if outs == ref else "FAILS: " + first_diff(outs, ref))
-    print("working-set log vs model:", bad or "agrees")
+    print("working-set log vs model:", bad or ("agrees" if log else "EMPTY LOG (the working set is not the traced threading.local)"))
     return 0 if outs == ref and not bad else 1
 
 
